@@ -77,6 +77,7 @@ def evaluate(case):
         cF, dF = (v[2] if p[2] else 1.0), (v[3] if p[3] else 0.0)
     try:
         s = StoG(**kw)
+        sc.decoy_instances()
         for d in case["datasets"]:
             s.add_dataset(sc.to_info(d))
         stored = s.sq_individuals.copy()
